@@ -1,5 +1,5 @@
 """C04 — persisted chunk files do not outlive the chunk."""
-from sa.paths import must_precede, Cfg, loops
+from sa.paths import _result_written, must_precede, Cfg, loops
 from sa.flow import origin_chain, field_accesses, value_sources
 from sa.match import holds, const_value
 from sa.build import AnalysisBroken
@@ -31,6 +31,14 @@ def run(ck):
         sites = f.calls(rx(r'unordered_map<.*ChunkRecord.*::(erase|insert_or_assign|clear|extract)$'))
         # operator[] / emplace overwrite forms
         sites += [i for i in f.calls(rx(r'unordered_map<.*ChunkRecord.*::operator\[\]$'))]
+        # in-place mutation of a stored record (through an iterator / reference into chunks_): it->second = …,
+        # it->second.persisted = …, it->second.file_path.clear()
+        pm = f.parent_map()
+        for i, nd in enumerate(f.nodes):
+            if nd['k'] == 'MemberExpr' and nd.get('n') == 'second' and 'ChunkRecord' in nd.get('t', '') and _result_written(f, i, pm):
+                if f.q == CS + 'wipe_persisted_chunk':
+                    continue
+                sites.append(i)
         if not sites:
             continue
         ck.touch(f)
@@ -53,9 +61,10 @@ def run(ck):
         mp = dict(must_precede(f, sites, is_wipe, bypass))
         for s in sites:
             n_sites += 1
-            ck.ob('C04.wipe', 'C04.wipe/%s/%s' % (f.name, f.nodes[s]['callee'].split('::')[-1]), s not in mp, f.loc(s),
-                  'a record leaves chunks_ (%s) only after wipe_persisted_chunk, unless it is not persisted / wiping is disabled'
-                  % f.nodes[s]['callee'].split('::')[-1], mp.get(s))
+            what = f.nodes[s].get('callee', 'in-place write of a stored record').split('::')[-1]
+            ck.ob('C04.wipe', 'C04.wipe/%s/%s' % (f.name, what), s not in mp, f.loc(s),
+                  'a record leaves chunks_ or is overwritten in place (%s) only after wipe_persisted_chunk, unless it is not '
+                  'persisted / wiping is disabled' % what, mp.get(s))
     ck.floor('C04.wipe', 'record removal/replacement sites', n_sites, 2)
 
     # wipe_persisted_chunk -> secure_wipe_file(record.file_path)
@@ -103,6 +112,33 @@ def run(ck):
         ok = any(pd.nodes[j].get('m') == REC + 'data' for j in srcs0) and any(pd.nodes[j].get('callee', '').endswith('::data') for j in srcs0) \
             and any(pd.nodes[j].get('m') == REC + 'data' for j in srcs1) and any(pd.nodes[j].get('callee', '').endswith('::size') for j in srcs1)
     ck.ob('C04.shape', 'C04.shape/persist-exact-bytes', ok, pd.loc(), 'persist_chunk_to_disk writes exactly record.data (data(), size())')
+    # interrupted store: once bytes may have been written, every failing return removes the file itself
+    # (not through wipe_persisted_chunk, whose `persisted` guard is still false at that point)
+    opens = [i for i in pd.walk() if pd.nodes[i]['k'] in ('CXXConstructExpr', 'CXXTemporaryObjectExpr') and
+             pd.nodes[i].get('callee', '').startswith('std::basic_ofstream') and pd.kids(i)]
+    ck.floor('C04.crash', 'ofstream constructions in persist_chunk_to_disk', len(opens), 1)
+    path_d = None
+    if opens:
+        pn = pd.nodes[pd.strip(pd.call_args(opens[0])[0])]
+        path_d = pn.get('d') if pn['k'] == 'DeclRefExpr' else None
+
+    def removes_file(e):
+        nd = pd.nodes[e]
+        if nd.get('callee') in (CS + 'secure_wipe_file', 'std::filesystem::remove'):
+            a = pd.call_args(e)
+            an = pd.nodes[pd.strip(a[0])] if a else {}
+            return path_d is not None and an.get('k') == 'DeclRefExpr' and an.get('d') == path_d
+        return False
+
+    def returns_true(e):
+        nd = pd.nodes[e]
+        return nd['k'] == 'ReturnStmt' and pd.kids(e) and pd.nodes[pd.strip(pd.kids(e)[0])].get('cv') == '1'
+    cfgd = Cfg.of(pd)
+    for wcall in w:
+        wit = cfgd.must_pass(wcall, removes_file, stop_at=returns_true)
+        ck.ob('C04.crash', 'C04.crash/failed-write-removes-file', wit is None, pd.loc(wcall),
+              'after stream.write, every return other than `return true` first calls secure_wipe_file(path) / remove(path) on the '
+              'file just opened, so an interrupted store leaves no file behind', wit)
 
     # ---- (own) who creates/removes files ---------------------------------------------------
     owners = {CS + 'persist_chunk_to_disk', CS + 'secure_wipe_file'}
